@@ -28,7 +28,10 @@ CLAIM = {
             "txkeys' delayed and revocation keys, and validate_htlc_tx enforces the fee-rate range; (R9.4) the "
             "contest delays these guards compare with are the negotiated ones: the protocol handler stores the "
             "request's to_self_delay as holder_selected_contest_delay and remote_to_self_delay as "
-            "counterparty_selected_contest_delay (not crossed). The "
+            "counterparty_selected_contest_delay (not crossed); (R9.5) the sighash flags under which the supplied and "
+            "the recomposed second-level transaction are compared (and signed) are one value chosen by the channel "
+            "type alone: SIGHASH_ALL unless setup.is_anchors(), so on a non-anchor channel every input and output of "
+            "the supplied transaction is covered by the comparison. The "
             "parameter-only HTLC request is out of scope by the property's text.",
     "note": "non-permissive policy; LockTime::is_satisfied_by / build_htlc_transaction / script parsers trusted by name",
     "technique": "static analysis: loop-iteration must-pass + must-pass-through + provenance (argument roles) + guard scenarios",
@@ -42,6 +45,7 @@ def run(ctx):
     r92(ctx)
     r93(ctx)
     r94(ctx)
+    r95(ctx)
 
 
 def r91(ctx):
@@ -344,3 +348,42 @@ def r94(ctx):
     from rules import C07
     C07.setup_roles(ctx, "R9.4", C07.DELAY_ROLES, "sweeps and second-level HTLC transactions are then validated and "
                     "recomposed with the other side's delay")
+
+
+def r95(ctx):
+    ctx.rule("R9.5", "second-level HTLC validation: both sighashes (supplied tx, recomposed tx) are computed with one sighash "
+                     "type, chosen by setup.is_anchors() alone: ALL on non-anchor channels (the comparison then covers every "
+                     "input and output of the supplied transaction), SINGLE|ANYONECANPAY only with anchors")
+    p = ctx.prog
+    vb = p.fn(f"{SV}::decode_and_validate_htlc_tx")
+    fv = fnview(ctx, vb)
+    calls = R.call_blocks(fv, lambda n: n.endswith("::p2wsh_signature_hash"))
+    ctx.floor("R9.5", "p2wsh_signature_hash calls in decode_and_validate_htlc_tx", len(calls), 2)
+    roots = set()
+    for bi, ln, c in calls:
+        root, defs, sw = R.conditional_defs(fv, c.args[-1])
+        roots.add(root)
+        vals = sorted({render(e).rsplit("::", 1)[-1] for _, ops in defs for e in ops})
+        conds = [render(e) for _, e in sw]
+        ctx.ob("R9.5", vals == ["All", "SinglePlusAnyoneCanPay"] or vals == ["All"], f"{vb.name}/sighash-type/values",
+               f"the sighash type of the HTLC transaction comparison takes the values {vals} (expected ALL, and "
+               "SINGLE|ANYONECANPAY for anchor channels)", where=f"{vb.file}:{ln}", sample=str(vals))
+        only_type = all(("is_anchors(" in x or "is_zero_fee_htlc(" in x) and "tx" not in x.replace("txkeys", "") for x in conds)
+        ctx.ob("R9.5", only_type and (bool(conds) or len(vals) == 1), f"{vb.name}/sighash-type/decided-by-channel-type",
+               f"which sighash type is used is decided by {conds} (expected the channel type only): a supplied transaction "
+               "can select SINGLE|ANYONECANPAY itself, so on a non-anchor channel its extra inputs and outputs escape the "
+               "comparison with the recomposed BOLT-3 transaction", where=f"{vb.file}:{ln}", sample=str(conds))
+        # direction: with is_anchors() == false only ALL is reachable
+        if len(vals) == 2 and only_type:
+            cut = set()
+            for cbi, cc in vb.calls():
+                if cc.callee is not None and cc.callee.name.endswith("ChannelSetup::is_anchors"):
+                    cut |= fv.result_edges(cbi, cc, "ok")
+            live = fv.reach(0, cut_edges=cut)
+            reach_vals = sorted({render(e).rsplit("::", 1)[-1] for dbi, ops in defs if dbi in live for e in ops})
+            ctx.ob("R9.5", reach_vals == ["All"], f"{vb.name}/sighash-type/non-anchor-is-all",
+                   f"on a non-anchor channel the sighash type can be {reach_vals} (expected ALL only)",
+                   where=f"{vb.file}:{ln}", sample="is_anchors() == false => ALL")
+    ctx.ob("R9.5", len(roots) == 1 and None not in roots, f"{vb.name}/sighash-type/one-value",
+           "the supplied and the recomposed transaction are hashed with different sighash-type values",
+           where=f"{vb.file}:{vb.line}", sample="one sighash_type local for both hashes")
